@@ -107,6 +107,20 @@ def gen_spec(rng, tier):
             "prices_raw": [[rng.randrange(0, 64) / 8.0 for _ in range(d)] for _ in range(ncv)]}
 
 
+def gen_tight(rng, tier):
+    """huge mean, tiny dispersion: underlying 100 + k / 2^27, notional 2^20 (all dyadic, the exact error is known): the error is
+    ~1e-10 of the payoff, a variance formula that cancels (E[x^2] - E[x]^2) loses it entirely"""
+    spec = gen_spec(rng, tier)
+    spec["n"] = rng.choice([2, 3, 5, 8, 16, 40])
+    spec["paths"] = [100.0 + rng.randrange(-64, 65) / 2.0 ** 27 for _ in range(spec["n"])]
+    spec["strikes"] = [rng.choice([0.0, 1.0, 50.0]) for _ in range(spec["d"])]
+    spec["notional"] = 2.0 ** 20
+    spec["df"] = rng.choice([1.0, 0.5])
+    spec["ncv"], spec["controls"], spec["prices_raw"] = 0, [], []
+    spec["tight"] = True
+    return spec
+
+
 def gen_sequence(rng, tier):
     """2-4 pricings on ONE engine: N then M<N, M>N, M=N; same or different product; the controls (engine
     configuration) stay; the payoff dimension changes only without controls"""
@@ -291,7 +305,8 @@ def oracle(spec, obs):
             var = sum((x - m) ** 2 for x in cols[j]) / (n - 1)
             e2 = var / n
             rep = float(obs["err_raw"][j]) if len(obs["err_raw"]) == d else float("nan")
-            if not _close(rep * rep, e2, TOL9, sc * sc):
+            # RELATIVE tolerance on the error itself (not on the size of the payoff): 1e-6 of the exact value
+            if abs(Fraction(rep) ** 2 - e2) > Fraction(1, 10 ** 6) * e2 + Fraction(1, 10 ** 30) * sc * sc or rep != rep:
                 det = {"component": j, "reported_error": rep, "textbook_error": math.sqrt(float(e2)), "n": n, "d": d}
                 if d >= 2 and _close(rep * rep * d, e2, TOL9, sc * sc):
                     det["finding"] = "F-C07-1"
@@ -305,7 +320,7 @@ def oracle(spec, obs):
             m = _mean(cols[j])
             var = sum((x - m) ** 2 for x in cols[j]) / (n - 1)
             rep = float(obs["variance_raw"][j]) if len(obs["variance_raw"]) == d else float("nan")
-            if not _close(rep, var, TOL9, sc * sc):
+            if rep != rep or abs(Fraction(rep) - var) > Fraction(1, 10 ** 6) * var + Fraction(1, 10 ** 30) * sc * sc:
                 out.append(("get_variance() is not the unbiased sample variance of the payoff", {"component": j, "reported": rep, "expected": float(var), "mean": float(m)}))
                 break
     if ncv and len(got) == n:
@@ -416,7 +431,7 @@ def correspond(res):
     n_items = 420 if res.tier == "quick" else 5000
     eng_cases, cv_cases = [], []
     for i in range(n_items):
-        specs = gen_sequence(rng, res.tier) if i % 4 == 3 else [gen_spec(rng, res.tier)]
+        specs = gen_sequence(rng, res.tier) if i % 4 == 3 else ([gen_tight(rng, res.tier)] if i % 10 == 1 else [gen_spec(rng, res.tier)])
         observations = run_sequence(specs)
         res.bump("pricings_on_one_engine", len(specs))
         for k, (spec, obs) in enumerate(zip(specs, observations)):
@@ -424,6 +439,7 @@ def correspond(res):
             res.count(("std", k, json.dumps([_payload(sp) for sp in specs[:k + 1]], sort_keys=True)),
                       nontrivial=(n >= 3 and (d >= 2 or ncv >= 1)) or k >= 1, kind=f"standard d={d} ncv={ncv}" + (" (re-pricing)" if k else ""))
             res.bump("n_paths", "1" if n == 1 else ("2-8" if n <= 8 else ">8"))
+            res.bump("payoff_scale", "huge mean / tiny dispersion (mean/std ~ 1e9)" if spec.get("tight") else "ordinary")
             if k:
                 res.bump("repricing_step", spec["seq_step"] + (", other product" if (spec["strikes"], spec["notional"], spec["d"]) !=
                                                                (specs[k - 1]["strikes"], specs[k - 1]["notional"], specs[k - 1]["d"]) else ", same product"))
@@ -485,7 +501,7 @@ def search(res):
                 return
 
 
-SPEC_KEYS = ("kind", "n", "d", "ncv", "vector_form", "strikes", "paths", "df", "notional", "controls", "price_mode", "scalar_prices", "spot_stats",
+SPEC_KEYS = ("tight", "kind", "n", "d", "ncv", "vector_form", "strikes", "paths", "df", "notional", "controls", "price_mode", "scalar_prices", "spot_stats",
              "prices_raw", "seq_step")
 
 
